@@ -187,6 +187,16 @@ def test_little_endian():
     r = dense.reduced_density(psi, [2, 0])
     _need(abs(dense.rho_expectation(r, (0, 0b11, 0), 2) - 1) < 1e-12, "reduced density XX")
     _need(abs(dense.rho_expectation(r, (0, 0, 0b01), 2)) < 1e-12, "reduced density ZI")
+    rng = np.random.default_rng(7)
+    phi = rng.normal(size=(2,) * 4) + 1j * rng.normal(size=(2,) * 4)
+    phi /= np.linalg.norm(phi)
+    r = dense.reduced_density(phi, [3, 0, 2])
+    fast = dense.all_pauli_expectations(r, 3)
+    for x in range(8):
+        for z in range(8):
+            _need(abs(fast[(x, z)] - dense.rho_expectation(r, (0, x, z), 3)) < 1e-12, "all_pauli_expectations")
+            full = (0, ((x & 1) << 3) | (((x >> 1) & 1) << 0) | (((x >> 2) & 1) << 2), ((z & 1) << 3) | (((z >> 1) & 1) << 0) | (((z >> 2) & 1) << 2))
+            _need(abs(fast[(x, z)] - dense.expectation(phi, full, 4)) < 1e-12, "partial trace in list order")
 
 
 def test_coupling():
